@@ -23,7 +23,10 @@ MANIFEST = {
     "note": "Tolerance 6 degrees (observed worst 3.3 degrees with the Gaussian-tapered disc window; a hard-edged disc gives up to 4.5). The tower is placed with the harness' own equirectangular formula; its returned local position is required to be within 1 m of the domain centre.",
 }
 
-GRIDS = {"square": (32, 32, 400.0, 400.0), "oblong": (32, 48, 400.0, 600.0), "aniso": (48, 32, 300.0, 400.0)}
+GRIDS = {"square": (32, 32, 400.0, 400.0), "oblong": (32, 48, 400.0, 600.0), "aniso": (48, 32, 300.0, 400.0),
+         # a low mast (2 m) in a domain several hundred measurement heights long, as needed to hold a stable-night footprint
+         "low-mast": (96, 64, 1200.0, 800.0)}
+LOW = {"zm": 2.0, "nz": 16, "ustar": 0.25}
 ORIGINS = {"NE": (50.0, 10.0), "NW": (35.0, -105.0), "SE": (-33.0, 151.0), "SW": (-23.0, -46.0), "equator": (0.0, 37.0), "greenwich": (51.5, 0.0), "null-island": (0.0, 0.0)}
 TOL_DEG = 6.0
 
@@ -31,11 +34,14 @@ TOL_DEG = 6.0
 def configs(tier):
     if tier == "quick":
         cyc = itertools.cycle([("MOST", -100.0, 4.0), ("MOSTM", 50.0, 2.0), ("CONSTANT", 1e9, 6.0), ("MOST", 1e9, 2.0), ("MOSTM", -100.0, 6.0)])
-        sel = [(g, o) + next(cyc) for g, o in itertools.product(GRIDS, ORIGINS)]
+        sel = [(g, o) + next(cyc) for g, o in itertools.product([g for g in GRIDS if g != "low-mast"], ORIGINS)]
     else:
-        sel = list(itertools.product(GRIDS, ORIGINS, ("MOST", "MOSTM", "CONSTANT"), (-100.0, 1e9, 50.0), (2.0, 6.0)))
+        sel = list(itertools.product([g for g in GRIDS if g != "low-mast"], ORIGINS, ("MOST", "MOSTM", "CONSTANT"), (-100.0, 1e9, 50.0), (2.0, 6.0)))
     for g, o, clo, L, ws in sel:
         yield {"grid": g, "origin": o, "closure": clo, "mol": L, "speed": ws}
+    # the literal statement (centre of mass of the WHOLE returned footprint) for the low mast, no halo configured
+    for L, clo in itertools.product((-30.0, 1e9, 20.0), ("MOST",) if tier == "quick" else ("MOST", "MOSTM")):
+        yield {"grid": "low-mast", "origin": "NE", "closure": clo, "mol": L, "speed": 3.5, "window": "whole-domain"}
 
 
 def make_cfg(case, wd):
@@ -44,10 +50,11 @@ def make_cfg(case, wd):
     nx, ny, xmax, ymax = GRIDS[case["grid"]]
     rlat, rlon = ORIGINS[case["origin"]]
     lat, lon = geo.place(rlat, rlon, xmax / 2, ymax / 2)
+    low = case["grid"] == "low-mast"
     return parse_config_dict({
-        "domain": {"nx": nx, "ny": ny, "xmax": xmax, "ymax": ymax, "nz": 8, "modes": [nx, ny], "ref_lat": rlat, "ref_lon": rlon},
-        "towers": [{"name": "mast", "lat": lat, "lon": lon, "z_m": 5.0}],
-        "met": {"ustar": 0.4, "mol": case["mol"], "wind_speed": case["speed"], "wind_dir": float(wd)},
+        "domain": {"nx": nx, "ny": ny, "xmax": xmax, "ymax": ymax, "nz": LOW["nz"] if low else 8, "modes": [nx, ny], "ref_lat": rlat, "ref_lon": rlon},
+        "towers": [{"name": "mast", "lat": lat, "lon": lon, "z_m": LOW["zm"] if low else 5.0}],
+        "met": {"ustar": LOW["ustar"] if low else 0.4, "mol": case["mol"], "wind_speed": case["speed"], "wind_dir": float(wd)},
         "solver": {"closure": case["closure"], "footprint": True, "precision": "double"},
     })
 
@@ -83,6 +90,8 @@ def case_circle(case):
         # rotationally symmetric, smooth window (Gaussian inside the largest disc): a hard-edged disc adds up to
         # 4.5 deg of pure discretisation error on these grids, the taper keeps it below 3.3 deg
         wgt = f * np.exp(-rr2 / (0.45 * Rd) ** 2) * (rr2 <= Rd**2)
+        if case.get("window") == "whole-domain":
+            wgt = f
         cx, cy = (wgt * (X - tx)).sum(), (wgt * (Y - ty)).sum()
         if not (np.isfinite(cx) and np.isfinite(cy)) or (cx == 0 and cy == 0):
             v.append({"sub": "bearing", "sig": "bearing/degenerate", "msg": "footprint centroid undefined for wd=%d; case %s" % (wd, core.canon(case))})
